@@ -13,6 +13,7 @@ import (
 	"sync/atomic"
 	"time"
 
+	cdc "github.com/craterdog/go-collection-framework/v4/cdcn"
 	col "github.com/craterdog/go-collection-framework/v4/collection"
 
 	"verif/harness/internal/core"
@@ -663,4 +664,86 @@ func RunC11Race(c *core.Ctx) {
 	Parse(t + ", 1, 2, 3, 4, 5, 6, 7, 8, 9, 10, 11, 12, 13, 14, 15, 16, 17, 18, 19, 20")
 	c.Cover("race-build-parses")
 	c.Distinct(core.HashStr("race" + t))
+}
+
+// ParseWith parses on a given (reused) notation.
+func ParseWith(n col.NotationLike, src string) (o Outcome) {
+	defer func() {
+		if e := recover(); e != nil {
+			o.Panicked = true
+			o.Payload = e
+			o.Text = fmt.Sprint(e)
+		}
+	}()
+	o.Value = n.ParseSource(src)
+	return
+}
+
+// truncations of valid documents that the PARSER (not the scanner) rejects
+func parserRejected(r *core.Rng) string {
+	doc, _ := Derive(r, r.Intn(3))
+	runes := []rune(doc)
+	switch r.Intn(4) {
+	case 0:
+		return "[\n    1\n    2\n    3\n"
+	case 1:
+		if len(runes) > 2 {
+			return string(runes[:len(runes)/2])
+		}
+		return "["
+	case 2:
+		return doc + ", 1, 2, 3, 4, 5, 6, 7, 8, 9, 10, 11, 12, 13, 14, 15, 16, 17, 18, 19, 20"
+	default:
+		return "[1, 2](Catalog)" + strings.Repeat("\n", r.Intn(3))
+	}
+}
+
+// RunReusedNotation: a sequence of documents parsed on ONE notation instance;
+// prop = "C11": every grammatical document must be accepted with its meaning
+// whatever was parsed before; prop = "C12": every outcome must be a value or a
+// diagnostic located in the CURRENT source.
+func RunReusedNotation(c *core.Ctx, prop string) {
+	r := c.Rng
+	n := cdc.Notation().Make()
+	k := r.Range(2, 6)
+	var hist []string
+	for i := 0; i < k; i++ {
+		valid := r.Chance(1, 2)
+		var src, want string
+		if valid {
+			src, want = Derive(r, r.Intn(3))
+		} else {
+			src = parserRejected(r)
+		}
+		o := ParseWith(n, src)
+		hist = append(hist, fmt.Sprintf("%q valid=%v panicked=%v", clip(src, 80), valid, o.Panicked))
+		cs := map[string]any{"documents_on_one_notation": hist, "sentence": clip(src, 600)}
+		if prop == "C11" && valid && want != "" {
+			if o.Panicked {
+				cs["panic"] = clip(strings.SplitN(o.Text, "\n", 2)[0], 300)
+				c.Violation("grammar/history-dependent", "a sentence of the grammar was rejected on a notation that had parsed other documents before", cs)
+				return
+			}
+			if got, _ := Canon(o.Value); got != want {
+				cs["parsed"] = clip(got, 600)
+				c.Violation("grammar/history-dependent", "the meaning of a sentence changed on a notation that had parsed other documents before", cs)
+				return
+			}
+		}
+		if prop == "C12" {
+			if sig, msg := ClassifyOutcome(src, o); sig != "" {
+				cs["panic"] = clip(o.Text, 300)
+				c.Violation(sig+"/reused-notation", msg, cs)
+				return
+			}
+			if !CheckLeak(c, src, cs) {
+				return
+			}
+		}
+	}
+	c.Cover("reused-notation.sequences")
+	c.Distinct(core.HashStr(strings.Join(hist, "|")))
+	if c.WantSample("reused-notation") {
+		c.Sample("reused-notation", map[string]any{"documents_on_one_notation": hist})
+	}
 }
